@@ -1,6 +1,7 @@
 package main
 
 import (
+	"go/constant"
 	"fmt"
 	"go/ast"
 	"go/token"
@@ -149,9 +150,103 @@ func (in *Interp) globalVar(o *types.Var, f *Frame) Val {
 	if isErrorType(o.Type()) {
 		return Sc{in.errSentinel(key)}
 	}
+	if in.globalInitDone == nil {
+		in.globalInitDone = map[string]bool{}
+	}
+	known := in.globalInitDone[key]
+	in.globalInitDone[key] = true
 	c := in.W.globalCell(in, key, o.Type())
 	in.note("package variable " + key + " treated as immutable during the call")
-	return in.load(&State{store: map[*Cell]Val{}}, c, f)
+	v := in.load(&State{store: map[*Cell]Val{}}, c, f)
+	if !known {
+		in.globalInit(o, key, v, f)
+	}
+	return v
+}
+
+// globalInit: an unexported package-level []byte variable initialised with a literal of constant
+// bytes and never assigned, indexed-assigned, address-taken, appended to or copied into anywhere in
+// its package holds its initial value.
+func (in *Interp) globalInit(o *types.Var, key string, v Val, f *Frame) {
+	sl, ok := v.(SliceV)
+	if !ok || !isByteSlice(o.Type()) || o.Exported() {
+		return
+	}
+	pi := in.W.Pkgs[o.Pkg().Path()]
+	if pi == nil {
+		return
+	}
+	info := pi.P.TypesInfo
+	var init ast.Expr
+	written := false
+	isVar := func(e ast.Expr) bool {
+		for {
+			switch x := ast.Unparen(e).(type) {
+			case *ast.Ident:
+				return info.ObjectOf(x) == o
+			case *ast.IndexExpr:
+				e = x.X
+			case *ast.SliceExpr:
+				e = x.X
+			default:
+				return false
+			}
+		}
+	}
+	for _, file := range pi.P.Syntax {
+		ast.Inspect(file, func(n ast.Node) bool {
+			switch x := n.(type) {
+			case *ast.ValueSpec:
+				for i, nm := range x.Names {
+					if info.Defs[nm] == o && i < len(x.Values) {
+						init = x.Values[i]
+					}
+				}
+			case *ast.AssignStmt:
+				for _, l := range x.Lhs {
+					if isVar(l) {
+						written = true
+					}
+				}
+			case *ast.IncDecStmt:
+				if isVar(x.X) {
+					written = true
+				}
+			case *ast.UnaryExpr:
+				if x.Op == token.AND && isVar(x.X) {
+					written = true
+				}
+			case *ast.CallExpr:
+				if id, ok := ast.Unparen(x.Fun).(*ast.Ident); ok && (id.Name == "append" || id.Name == "copy" || id.Name == "clear") && len(x.Args) > 0 && isVar(x.Args[0]) {
+					written = true
+				}
+			}
+			return true
+		})
+	}
+	cl, ok := init.(*ast.CompositeLit)
+	if !ok || written {
+		return
+	}
+	var bytesv []int64
+	for _, e := range cl.Elts {
+		tv, ok := info.Types[e]
+		if !ok || tv.Value == nil {
+			return
+		}
+		n, exact := constant.Int64Val(constant.ToInt(tv.Value))
+		if !exact {
+			return
+		}
+		bytesv = append(bytesv, n)
+	}
+	content := in.regionContent(nil, sl.Reg, f)
+	in.assumeGlobal(Eq(sl.Len, IntLit(int64(len(bytesv)))))
+	in.assumeGlobal(Not(sl.Nil))
+	for i, b := range bytesv {
+		in.assumeGlobal(Eq(Select(content, Add(sl.Off, IntLit(int64(i)))), IntLit(b)))
+	}
+	in.note("package variable " + key + " holds its initial literal value (checked: never assigned, index-assigned, address-taken, appended to or copied into in its package; assumption: no callee writes through the slice)")
 }
 
 func (in *Interp) errSentinel(key string) Term {
@@ -304,6 +399,17 @@ func sameVal(a, b Val) bool {
 	case MapV:
 		y, ok := b.(MapV)
 		return ok && x.M == y.M && x.Nil.S == y.Nil.S
+	case BatchV:
+		y, ok := b.(BatchV)
+		if !ok || x.DB != y.DB || x.D.S != y.D.S || len(x.Ops) != len(y.Ops) {
+			return false
+		}
+		for i := range x.Ops {
+			if x.Ops[i].del != y.Ops[i].del || x.Ops[i].k.S != y.Ops[i].k.S || x.Ops[i].v.S != y.Ops[i].v.S {
+				return false
+			}
+		}
+		return true
 	case StructV:
 		y, ok := b.(StructV)
 		if !ok || len(x.F) != len(y.F) {
